@@ -215,6 +215,10 @@ def run(ctx):
     # when the next one begins - whatever its own start, zero included
     ctx.prove("scc.TimingCorrectingCaptionList._update_last_batch", C06.update_last_batch,
               functions=[TimingCorrectingCaptionList._update_last_batch], setup_interp=setup, crosscheck=False)
+    # captions that never got an end (the last paint-on group, split over non-adjacent rows) all get one: start < end
+    from pycaption.scc import fix_last_captions_without_ending
+    ctx.prove("scc.fix_last_captions_without_ending", C06.last_captions, functions=[fix_last_captions_without_ending],
+              setup_interp=setup, fsem="uf", crosscheck=False)
     import props.C06_commands as CM
     CM.prove_commands(ctx)
     ctx.bounded("programs", "roll-up programs (depth 2-4, fixed and moving base rows incl. one row down / up per line, 1-8 "
